@@ -39,6 +39,8 @@ type VerifRoot struct {
 	Refs         int64
 	MarkAddr     uintptr // address of this version's reclaimMark sentinel
 	ChainAddr    uintptr // chainedRootNodeLoc
+	Chain        *VerifRoot // copy of the chained version record (without its tree), nil if none
+	Superseded   bool
 	ReclaimLater [3]uintptr
 	LockAddr     uintptr // identity of the rootLock shared by a lineage
 	RootOff      int64
@@ -96,6 +98,10 @@ func VerifDump(t *Collection) VerifRoot {
 }
 
 func verifRoot(t *Collection, r *rootNodeLoc) VerifRoot {
+	return verifRootDepth(t, r, true, 0)
+}
+
+func verifRootDepth(t *Collection, r *rootNodeLoc, withTree bool, depth int) VerifRoot {
 	if r == nil {
 		return VerifRoot{Nil: true, LockAddr: uintptr(unsafe.Pointer(t.rootLock))}
 	}
@@ -106,6 +112,11 @@ func verifRoot(t *Collection, r *rootNodeLoc) VerifRoot {
 		ChainAddr: uintptr(unsafe.Pointer(r.chainedRootNodeLoc)),
 		LockAddr:  uintptr(unsafe.Pointer(t.rootLock)),
 	}
+	v.Superseded = r.superseded
+	if r.chainedRootNodeLoc != nil && depth < 64 {
+		c := verifRootDepth(t, r.chainedRootNodeLoc, false, depth+1)
+		v.Chain = &c
+	}
 	for i, n := range r.reclaimLater {
 		v.ReclaimLater[i] = uintptr(unsafe.Pointer(n))
 	}
@@ -115,7 +126,9 @@ func verifRoot(t *Collection, r *rootNodeLoc) VerifRoot {
 		}
 		v.RootEmpty = r.root.loc.isEmpty() && r.root.node == nil
 		v.RootCached = r.root.node != nil
-		v.Root = verifNode(r.root.node)
+		if withTree {
+			v.Root = verifNode(r.root.node)
+		}
 	} else {
 		v.RootEmpty = true
 	}
